@@ -315,9 +315,32 @@ func nonNegValue(v ssa.Value, seen map[ssa.Value]bool, depth int) bool {
 		if b, ok := x.Call.Value.(*ssa.Builtin); ok {
 			return b.Name() == "len" || b.Name() == "cap" || b.Name() == "copy"
 		}
+		if cf := x.Call.StaticCallee(); cf != nil && cf.Pkg != nil && cf.Pkg.Pkg.Path() == "sync/atomic" && strings.HasPrefix(cf.Name(), "Load") && len(x.Call.Args) == 1 {
+			if fa, ok := x.Call.Args[0].(*ssa.FieldAddr); ok {
+				return sizeField(fa)
+			}
+		}
 		return nonNegFunc(x.Call.StaticCallee(), depth+1)
+	case *ssa.UnOp:
+		if fa, ok := x.X.(*ssa.FieldAddr); ok && x.Op == token.MUL {
+			return sizeField(fa)
+		}
 	}
 	return false
+}
+
+// sizeFields: element counters of the container types. They are non-negative because they mirror the number of
+// elements held; the bookkeeping itself is the subject of the named rule, not of the bounds prover.
+var sizeFields = map[string]string{
+	"List.Len":            "R20a (every link-in/detach is paired with a Len update)",
+	"Btree.len":           "R20t (size updated once per insert/delete, outside the recursion)",
+	"ConcurrentMap.count": "R20n (count mirrors the shard maps under the shard lock)",
+	"Chan.numSubs":        "R20n (numSubs mirrors the conns table under Chan.rw)",
+}
+
+func sizeField(fa *ssa.FieldAddr) bool {
+	_, ok := sizeFields[namedOf(fa.X.Type())+"."+fieldName(fa)]
+	return ok
 }
 
 // paramNonNegHook answers "is this integer parameter non-negative at every call site" (set by the checker context).
@@ -470,6 +493,23 @@ func (p *bprover) defFacts(s *factSet, goal dfact) {
 			s.fs = append(s.fs, dfact{"0", n, 0})
 		}
 		switch x := v.(type) {
+		case *ssa.Phi:
+			// two counters of one loop that start at constants and advance by constants on every back edge:
+			// a - b <= a0 - b0 holds throughout when a never advances faster than b
+			for _, other := range x.Block().Instrs {
+				y, ok := other.(*ssa.Phi)
+				if !ok {
+					break
+				}
+				if y == x || !isIntType(y.Type()) {
+					continue
+				}
+				if d, ok := lockstepPhis(x, y); ok {
+					yn := p.lin(y)
+					s.fs = append(s.fs, dfact{n, yn.n, d + yn.k})
+					push(yn.n)
+				}
+			}
 		case *ssa.BinOp:
 			switch x.Op {
 			case token.REM:
@@ -503,7 +543,7 @@ func (p *bprover) defFacts(s *factSet, goal dfact) {
 			if call, ok := x.Tuple.(*ssa.Call); ok {
 				if cf := call.Call.StaticCallee(); cf != nil && firstParty(cf) && isSignedInt(x.Type()) {
 					for j, arg := range call.Call.Args {
-						if p.c.resultLeLen(cf, x.Index, j) {
+						if p.c.resultLeLen(cf, x.Index, j) || p.c.ctxResultLeLen(call, x.Index, j) {
 							l := p.lenOf(arg)
 							s.fs = append(s.fs, dfact{n, l.n, l.k})
 							push(l.n)
@@ -514,7 +554,7 @@ func (p *bprover) defFacts(s *factSet, goal dfact) {
 		case *ssa.Call:
 			if cf := x.Call.StaticCallee(); cf != nil && firstParty(cf) && isSignedInt(x.Type()) {
 				for j, arg := range x.Call.Args {
-					if p.c.resultLeLen(cf, 0, j) {
+					if p.c.resultLeLen(cf, 0, j) || p.c.ctxResultLeLen(x, 0, j) {
 						l := p.lenOf(arg)
 						s.fs = append(s.fs, dfact{n, l.n, l.k})
 						push(l.n)
@@ -688,6 +728,9 @@ func (p *bprover) prove(goal dfact, b *ssa.BasicBlock, extra *factSet, depth int
 	if p.direct(goal, s) {
 		return true
 	}
+	if p.viaCalleeAt(goal, b) {
+		return true
+	}
 	if depth <= 0 {
 		return false
 	}
@@ -786,6 +829,180 @@ func (p *bprover) ProveLE(x, y lt, c int64, at ssa.Instruction) bool {
 	p.stack = map[string]bool{}
 	p.budget = 1500
 	return p.prove(goal, at.Block(), &factSet{par: map[string]int{}}, 6)
+}
+
+var calleeProofDepth int
+
+// viaCallee: the goal relates results of one call to a first-party function (to each other or to zero), possibly under
+// a dominating test of a boolean result of the same call (start, end, ok := normalise(...); if !ok { return }).
+// It is then established inside the callee: at every return that is compatible with the tested boolean, the returned
+// values satisfy the goal.
+func (p *bprover) viaCalleeAt(goal dfact, at *ssa.BasicBlock) bool {
+	if calleeProofDepth >= 2 {
+		return false
+	}
+	var call *ssa.Call
+	idx := map[string]int{}
+	var lens []string
+	for _, n := range []string{goal.a, goal.b} {
+		if n == "0" {
+			continue
+		}
+		if strings.HasPrefix(n, "len:") {
+			lens = append(lens, n)
+			continue
+		}
+		var cl *ssa.Call
+		switch x := p.vals[n].(type) {
+		case *ssa.Extract:
+			c2, ok := x.Tuple.(*ssa.Call)
+			if !ok {
+				return false
+			}
+			cl, idx[n] = c2, x.Index
+		case *ssa.Call:
+			cl, idx[n] = x, 0
+		default:
+			return false
+		}
+		if call != nil && cl != call {
+			return false
+		}
+		call = cl
+	}
+	if call == nil {
+		return false
+	}
+	cf := call.Call.StaticCallee()
+	if cf == nil || cf.Blocks == nil || !firstParty(cf) || len(call.Call.Args) != len(cf.Params) {
+		return false
+	}
+	// a length in the goal must be the length of one of the call's arguments
+	lenParam := map[string]int{}
+	for _, n := range lens {
+		found := false
+		for j, a := range call.Call.Args {
+			if lenNode(a) == n {
+				lenParam[n], found = j, true
+				break
+			}
+		}
+		if !found {
+			return false
+		}
+	}
+	// boolean results of the same call tested on the way to the site
+	guard := map[int]bool{}
+	for d := at; d != nil && d.Idom() != nil; d = d.Idom() {
+		id := d.Idom()
+		if len(d.Preds) != 1 || d.Preds[0] != id {
+			continue
+		}
+		cond, neg, ok := branchCond(id, d)
+		if !ok {
+			continue
+		}
+		for {
+			u, isNot := cond.(*ssa.UnOp)
+			if !isNot || u.Op != token.NOT {
+				break
+			}
+			cond, neg = u.X, !neg
+		}
+		if ex, ok := cond.(*ssa.Extract); ok && ex.Tuple == ssa.Value(call) {
+			guard[ex.Index] = !neg
+		}
+	}
+	var gk []string
+	for gi, w := range guard {
+		gk = append(gk, fmt.Sprint(gi, w))
+	}
+	sort.Strings(gk)
+	ai, bi := "0", "0"
+	if i, ok := idx[goal.a]; ok {
+		ai = fmt.Sprint("r", i)
+	} else if j, ok := lenParam[goal.a]; ok {
+		ai = fmt.Sprint("l", j)
+	}
+	if i, ok := idx[goal.b]; ok {
+		bi = fmt.Sprint("r", i)
+	} else if j, ok := lenParam[goal.b]; ok {
+		bi = fmt.Sprint("l", j)
+	}
+	memoKey := fmt.Sprintf("%s|%s-%s<=%d|%v", cf.String(), ai, bi, goal.c, gk)
+	if p.c.viaMemo == nil {
+		p.c.viaMemo = map[string]bool{}
+	}
+	if r, ok := p.c.viaMemo[memoKey]; ok {
+		return r
+	}
+	p.c.viaMemo[memoKey] = false // cycles do not prove anything
+	res := p.viaCalleeProve(cf, goal, idx, lenParam, guard)
+	p.c.viaMemo[memoKey] = res
+	return res
+}
+
+func (p *bprover) viaCalleeProve(cf *ssa.Function, goal dfact, idx, lenParam map[string]int, guard map[int]bool) bool {
+	calleeProofDepth++
+	defer func() { calleeProofDepth-- }()
+	pr := p.c.newProver(cf)
+	any := false
+	for _, b := range cf.Blocks {
+		for _, in := range b.Instrs {
+			ret, ok := in.(*ssa.Return)
+			if !ok {
+				continue
+			}
+			rr := retResults(ret)
+			excluded := false
+			for gi, want := range guard {
+				if gi >= len(rr) {
+					continue
+				}
+				all := len(rr[gi]) > 0
+				for _, v := range rr[gi] {
+					k, isC := v.(*ssa.Const)
+					if !isC || k.Value == nil || (k.Value.ExactString() == "true") == want {
+						all = false
+					}
+				}
+				if all {
+					excluded = true // this return hands back the other truth value
+				}
+			}
+			if excluded {
+				continue
+			}
+			side := func(n string) []lt {
+				if n == "0" {
+					return []lt{{"0", 0}}
+				}
+				if j, ok := lenParam[n]; ok {
+					return []lt{pr.lenOf(cf.Params[j])}
+				}
+				var out []lt
+				for _, v := range rr[idx[n]] {
+					out = append(out, pr.lin(v))
+				}
+				return out
+			}
+			if i, ok := idx[goal.a]; ok && i >= len(rr) {
+				return false
+			}
+			if i, ok := idx[goal.b]; ok && i >= len(rr) {
+				return false
+			}
+			for _, x := range side(goal.a) {
+				for _, y := range side(goal.b) {
+					any = true
+					if !pr.ProveLE(x, y, goal.c, ret) {
+						return false
+					}
+				}
+			}
+		}
+	}
+	return any
 }
 
 // ---------- sites ----------
@@ -914,6 +1131,9 @@ func (c *C) callSitePre(fn *ssa.Function) []dfact {
 							}
 							pc := c.newProver(call.Parent())
 							if !pc.ProveLE(pc.lin(call.Call.Args[i]), pc.lenOf(call.Call.Args[j]), slack, call) {
+								if os.Getenv("RG_DEBUG") != "" {
+									fmt.Fprintf(os.Stderr, "callSitePre %s: %v - %v <= %d fails at %s\n", fn.Name(), pc.lin(call.Call.Args[i]), pc.lenOf(call.Call.Args[j]), slack, c.pos(call.Pos()))
+								}
 								holds = false
 								break
 							}
@@ -1070,6 +1290,34 @@ func (c *C) proveSite(p *bprover, in ssa.Instruction) (bool, string) {
 		return true, ""
 	}
 	switch x := in.(type) {
+	case *ssa.MakeSlice:
+		// X/k and X>>k (k > 0) are non-negative exactly when X is
+		unq := func(v ssa.Value) ssa.Value {
+			for {
+				bo, ok := v.(*ssa.BinOp)
+				if !ok || (bo.Op != token.QUO && bo.Op != token.SHR) {
+					return v
+				}
+				if k, ok := constInt(bo.Y); !ok || k <= 0 {
+					return v
+				}
+				v = bo.X
+			}
+		}
+		l, cp := p.lin(x.Len), p.lin(x.Cap)
+		if _, isC := x.Len.(*ssa.Const); !isC && isSignedInt(x.Len.Type()) && !p.ProveLE(zero, p.lin(unq(x.Len)), 0, in) {
+			return false, "cannot show the length " + canon(x.Len) + " of the new slice >= 0 (makeslice panics on a negative size)"
+		}
+		if x.Cap != x.Len {
+			if k, isC := constInt(x.Len); isC && k == 0 {
+				if !p.ProveLE(zero, p.lin(unq(x.Cap)), 0, in) {
+					return false, "cannot show the capacity " + canon(x.Cap) + " of the new slice >= 0 (makeslice panics on a negative size)"
+				}
+			} else if !p.ProveLE(l, cp, 0, in) {
+				return false, "cannot show len <= cap for the new slice (" + canon(x.Len) + " <= " + canon(x.Cap) + ")"
+			}
+		}
+		return true, ""
 	case *ssa.IndexAddr:
 		return checkIndex(x.X, x.Index)
 	case *ssa.Index:
@@ -1130,6 +1378,8 @@ func siteExpr(in ssa.Instruction) string {
 			hi = canon(x.High)
 		}
 		return canon(x.X) + "[" + lo + ":" + hi + "]"
+	case *ssa.MakeSlice:
+		return x.Type().String() + "(" + canon(x.Len) + "," + canon(x.Cap) + ")"
 	}
 	return "?"
 }
@@ -1561,4 +1811,122 @@ func (c *C) resultLeLen(fn *ssa.Function, k, j int) bool {
 	}
 	c.rllMemo[key] = 2
 	return false
+}
+
+// lockstepPhis: x and y are phis of one loop header; on every edge from outside the loop both carry constants
+// (x0, y0), on every back edge x carries x+kx or x itself and y carries y+ky with 0 <= kx <= ky (or y itself only when
+// x is unchanged too). Then x - y <= max(x0 - y0) at every point. Returns that bound.
+func lockstepPhis(x, y *ssa.Phi) (int64, bool) {
+	b := x.Block()
+	if y.Block() != b || len(x.Edges) != len(y.Edges) {
+		return 0, false
+	}
+	step := func(phi *ssa.Phi, e ssa.Value) (int64, bool) {
+		if e == ssa.Value(phi) {
+			return 0, true
+		}
+		if bo, ok := e.(*ssa.BinOp); ok && bo.Op == token.ADD && bo.X == ssa.Value(phi) {
+			if k, ok := constInt(bo.Y); ok {
+				return k, true
+			}
+		}
+		return 0, false
+	}
+	bound, have, back := int64(0), false, false
+	for i, pred := range b.Preds {
+		if b.Dominates(pred) {
+			kx, ok1 := step(x, x.Edges[i])
+			ky, ok2 := step(y, y.Edges[i])
+			if !ok1 || !ok2 || kx < 0 || kx > ky {
+				return 0, false
+			}
+			back = true
+			continue
+		}
+		x0, ok1 := constInt(x.Edges[i])
+		y0, ok2 := constInt(y.Edges[i])
+		if !ok1 || !ok2 {
+			return 0, false
+		}
+		if !have || x0-y0 > bound {
+			bound, have = x0-y0, true
+		}
+	}
+	return bound, have && back
+}
+
+// ctxResultLeLen: like resultLeLen, but for one call: result k of this call is <= len(argument j), established in the
+// callee under the position facts (argument i < / <= len(argument j'), argument i >= 0) that hold at this call site.
+// Used when the callee's other call sites do not all satisfy the precondition the postcondition needs.
+func (c *C) ctxResultLeLen(call *ssa.Call, k, j int) bool {
+	cf := call.Call.StaticCallee()
+	if cf == nil || cf.Blocks == nil || !firstParty(cf) || j >= len(cf.Params) || len(call.Call.Args) != len(cf.Params) || calleeProofDepth >= 2 {
+		return false
+	}
+	isSeq := func(t types.Type) bool {
+		switch u := t.Underlying().(type) {
+		case *types.Slice:
+			return true
+		case *types.Basic:
+			return u.Info()&types.IsString != 0
+		}
+		return false
+	}
+	if !isSeq(cf.Params[j].Type()) {
+		return false
+	}
+	if c.ctxMemo == nil {
+		c.ctxMemo = map[string]bool{}
+	}
+	key := fmt.Sprintf("%p|%d|%d", call, k, j)
+	if r, ok := c.ctxMemo[key]; ok {
+		return r
+	}
+	c.ctxMemo[key] = false
+	calleeProofDepth++
+	defer func() { calleeProofDepth-- }()
+	var facts []dfact
+	for i, prm := range cf.Params {
+		if !isSignedInt(prm.Type()) {
+			continue
+		}
+		pc := c.newProver(call.Parent())
+		if pc.ProveLE(lt{"0", 0}, pc.lin(call.Call.Args[i]), 0, call) {
+			facts = append(facts, dfact{"0", "v:" + prm.Name(), 0})
+		}
+		for j2, other := range cf.Params {
+			if !isSeq(other.Type()) {
+				continue
+			}
+			for _, slack := range []int64{-1, 0} {
+				pc := c.newProver(call.Parent())
+				if pc.ProveLE(pc.lin(call.Call.Args[i]), pc.lenOf(call.Call.Args[j2]), slack, call) {
+					facts = append(facts, dfact{"v:" + prm.Name(), lenNode(other), slack})
+					break
+				}
+			}
+		}
+	}
+	if len(facts) == 0 {
+		return false
+	}
+	pr := c.newProver(cf)
+	pr.entry = append(pr.entry, facts...)
+	res, any := true, false
+	for _, b := range cf.Blocks {
+		for _, in := range b.Instrs {
+			ret, ok := in.(*ssa.Return)
+			if !ok || len(ret.Results) <= k || !isSignedInt(ret.Results[k].Type()) {
+				continue
+			}
+			for _, v := range retResults(ret)[k] {
+				any = true
+				if !pr.ProveLE(pr.lin(v), pr.lenOf(cf.Params[j]), 0, ret) {
+					res = false
+				}
+			}
+		}
+	}
+	c.ctxMemo[key] = res && any
+	return res && any
 }
